@@ -2,7 +2,7 @@
 SPECIFICATION Spec
 CONSTANTS
   PopStartNewline = TRUE
-  Modes = {"genome", "org", "pop", "exp"}
+  Modes = {"genome", "org", "pop", "popsp", "exp"}
   MinTraits = 2
   MaxTraits = 2
   Pats = {1}
